@@ -829,9 +829,33 @@ fn w_histories(ctx: &mut Ctx) {
         }
         ctx.begin(wl, case);
         let mut rng = Rng::for_case(ctx.seed, "C12/histories", case);
-        let (n, d, pat, signs, _name) = random_structured(&mut rng, nmax);
-        let a = d.to_csc_pattern(&pat);
+        let (n, mut d, mut pat, signs, _name) = random_structured(&mut rng, nmax);
+        // a share of the instances has structurally absent diagonal entries (legal as long as no column of
+        // the permuted triangle is empty): the pivot of such a column is pure accumulation
         let perm = rng.perm(n);
+        if rng.bool(0.35) {
+            let mut pos = vec![0usize; n];
+            for (k, &v) in perm.iter().enumerate() {
+                pos[v] = k;
+            }
+            let mut dropped = 0;
+            for j in 0..n {
+                // keep the column of j non-empty in the permuted upper triangle
+                // (under either reading of the permutation vector)
+                let has_earlier_neighbour = (0..n).any(|i| i != j && pat[i.min(j) * n + i.max(j)] && pos[i] < pos[j])
+                    && (0..n).any(|i| i != j && pat[i.min(j) * n + i.max(j)] && perm[i] < perm[j])
+                    && (0..j).any(|i| pat[i * n + j]);
+                if has_earlier_neighbour && rng.bool(0.4) {
+                    pat[j * n + j] = false;
+                    d.set(j, j, 0.0);
+                    dropped += 1;
+                }
+            }
+            if dropped > 0 {
+                ctx.bump("history_instances_with_absent_diagonal_entries");
+            }
+        }
+        let a = d.to_csc_pattern(&pat);
         let mk_opts = |perm: &Vec<usize>, signs: &Vec<i8>| {
             let mut o = QDLDLSettingsBuilder::<f64>::default().Dsigns(signs.clone()).regularize_enable(true).regularize_eps(1e-13).regularize_delta(2e-7).build().unwrap();
             o.perm = Some(perm.clone());
@@ -839,8 +863,8 @@ fn w_histories(ctx: &mut Ctx) {
         };
         let mut live = match QDLDLFactorisation::<f64>::new(&a, Some(mk_opts(&perm, &signs))) {
             Ok(f) => f,
-            Err(_) => {
-                ctx.inconclusive("initial factorisation failed", wl, case);
+            Err(e) => {
+                ctx.inconclusive(&format!("initial factorisation failed: {e:?}"), wl, case);
                 continue;
             }
         };
